@@ -392,7 +392,7 @@ def make_batches(units, jobs):
     return batches
 
 
-MIRSYM_PROPS = {"C01", "C11", "C04", "C19", "C18", "C02", "C08", "C09", "C05", "C12", "C20", "C07"}
+MIRSYM_PROPS = {"C01", "C11", "C04", "C19", "C18", "C02", "C08", "C09", "C05", "C12", "C20", "C07", "C16"}
 MIRSYM_PRIMS = {"-true", "-false", "-print", "-print0", "-prune", "-quit", "-empty", "-readable"}
 
 
@@ -449,7 +449,8 @@ def run_check(prop, tier, only=None, jobs=None, seed=0):
                 notes[h["name"]] = (note, rc, logpath, build)
 
     kf = load_kf()
-    kf_by_harness = {f["harness"]: f for f in kf.get("findings", []) if f.get("property") == prop}
+    kf_entries = kf.get("findings", [])
+    kf_by_harness = {f["harness"]: f for f in kf_entries if f.get("property") == prop and f.get("harness")}
     violations, inconclusive, known, queries, samples = [], [], [], [], []
     evaluations, distinct = 0, 0
     fn_all, stubs_all, assumptions = set(), set(), set()
@@ -550,8 +551,11 @@ def run_check(prop, tier, only=None, jobs=None, seed=0):
         else:
             evaluations += mirsym["inputs_covered"]
             distinct += mirsym["paths"]
+            kf_keys = {k for e in kf_entries if e.get("property") == prop for k in e.get("mirsym_keys", [])}
+            unlisted = [v for v in mirsym["violations"] if v["key"] not in kf_keys]
             queries.append({"harness": "mirsym: " + mirsym["target"], "role": "main",
-                            "status": "verified" if not mirsym["violations"] and not mirsym["unsupported"] else "failed",
+                            "status": "verified" if not unlisted and not mirsym["unsupported"] else "failed",
+                            "known_finding_inputs": len(mirsym["violations"]) - len(unlisted),
                             "engine": mirsym["engine"], "bounds": mirsym["bounds"], "paths": mirsym["paths"], "inputs_or_obligations_discharged": mirsym["inputs_covered"],
                             "solver_calls": mirsym["solver_calls"], "decision_s": mirsym["wall_s"], "mir_dump_s": mirsym["mir_dump_s"],
                             "functions_executed": mirsym["functions_executed"], "runs": [{k: r[k] for k in ("bound", "paths", "inputs_covered", "solver_calls", "wall_s")} for r in mirsym["runs"]],
@@ -591,6 +595,14 @@ def run_check(prop, tier, only=None, jobs=None, seed=0):
         groups = {}
         for v in mirsym["violations"]:
             groups.setdefault(v["key"], []).append(v)
+        kf_mirsym = {k: e for e in kf_entries if e.get("property") == prop for k in e.get("mirsym_keys", [])}
+        for key in [k for k in groups if k in kf_mirsym]:
+            entry = kf_mirsym[key]
+            if entry not in known:
+                known.append(entry)
+            samples.append({"harness": "mirsym", "kind": "known finding reproduced by the solver", "finding": entry["id"], "inputs_of_this_kind": len(groups[key]),
+                            "example": groups[key][0]["summary"][:300]})
+            del groups[key]
         for key, vs in list(groups.items())[:8]:
             v = vs[0]
             witness = dict(v, property=prop, harness="mirsym", harness_name="mirsym", tier=tier, failing=v["summary"], same_kind_inputs=len(vs))
@@ -605,6 +617,12 @@ def run_check(prop, tier, only=None, jobs=None, seed=0):
             else:
                 vio_out.append((h, v["summary"][:400], wpath, reproduced, rdetail))
                 samples.append({"harness": "mirsym", "kind": "violation witness", "failing": v["summary"][:400], "replay": wpath, "reproduced_natively": reproduced})
+
+    if mirsym and not mirsym.get("error"):
+        seen_keys = {v["key"] for v in mirsym.get("violations", [])}
+        for e in kf_entries:
+            if e.get("property") == prop and e.get("mirsym_keys") and not any(k in seen_keys for k in e["mirsym_keys"]):
+                inconclusive.append(({"name": "mirsym", "full": "mirsym"}, "recorded known finding %s no longer reproduces (fixed? update known_findings.json)" % e["id"]))
 
     wall = time.time() - t_start
     ev = {
